@@ -29,6 +29,23 @@ CHECKS = {
             "reference and to the variables API), Item.decode over every assignment of length bytes (canonical re-encode, class, value), and "
             "Item.from_value over every integer at +-1 around every power of two up to 2^65 and structured python values (narrowest type).",
             "Trusts ref/e5.py; floats excluded from the from_value type oracle (statement lists bool/int/str/bytes/list).", "DESIGN.md 3/C14"),
+    "C05": ("model_checking", "vrt+hbfs", "explicit-state history BFS on the real HsmsProtocol + delay-bounded schedule exploration of the accept race",
+            "Every history over a 22-event alphabet (connect, peer close, enable/disable, all control messages with matching/alien system "
+            "bytes and status 0/1, data with/without W, local requests, timer expiry) up to the exhaustive depth, then BFS over canonical "
+            "states to the depth bound, is executed on a fresh real HsmsProtocol (active and passive) under the virtual runtime and compared "
+            "after every event with the E37 reference session model (state, exactly-one responses with echoed system bytes, Reject reason 4, "
+            "delivery in SELECTED only). The accept race (Select.req / Select.rsp in flight while the connection is being accepted) is "
+            "explored over all schedules with <= K delays at line granularity.",
+            "LoopConnection models TcpConnection's thread roles; T7/T8 not modelled; histories run under the default schedule (settle after each event); "
+            "bounded depth, state space not closed because periodic timers make remaining-time part of the state.", "DESIGN.md 3/C05"),
+    "C06": ("model_checking", "vrt+explore", "stateless delay-bounded schedule exploration (line-level scheduling points) of the real HsmsProtocol",
+            "A closed driver (2-3 application threads calling send_and_waitfor_response, a peer thread whose reply behaviour is an enumerated "
+            "environment choice: now / after the other's / after T3 / never, two unsolicited primaries, optionally a reconnect first, counter "
+            "at 0 and at the 2^32 wrap) is run for every schedule with <= K delays and <= E non-default peer answers; each execution is checked: "
+            "distinct system bytes, every caller gets exactly its own reply or None iff none arrived in time, unsolicited primaries delivered "
+            "once, serially, in order.",
+            "A source line of the listed racy region is the atom of interleaving; bounded by K and E (levels completed are in the evidence).",
+            "DESIGN.md 3/C06"),
 }
 
 NOT_YET = "check not built yet in this revision of /verif (see DESIGN.md section 6 build order)"
